@@ -462,6 +462,17 @@ INJECTOR_NAMES_2 = {
 
 # ---- round 10 (hunt on the unchanged tree): reproducers of the repaired defects and of the recorded findings
 ROUND10 = {
+    'LOCAL_REF_SHADOW': 'package main\n\nimport "github.com/mazrean/kessoku"\n\ntype Config struct{ Port int }\ntype Server struct{ Cfg Config }\n\nfunc NewServer(c Config) *Server { return &Server{c} }\n\nvar port = 1 // default\n\nfunc setup() {\n\tport := 8080\n\t_ = kessoku.Inject[*Server]("InitServer",\n\t\tkessoku.Value(Config{Port: port}),\n\t\tkessoku.Provide(NewServer),\n\t)\n}\n\nfunc main() {\n\tsetup()\n\tif InitServer().Cfg.Port != 8080 {\n\t\tpanic("wrong result")\n\t}\n}\n',
+    'LOCAL_REF_ASYNC': 'package main\n\nimport (\n\t"context"\n\n\t"github.com/mazrean/kessoku"\n)\n\ntype DB struct{ dsn string }\ntype Cache struct{ addr string }\ntype App struct {\n\tdb    *DB\n\tcache *Cache\n}\n\nfunc NewCache() *Cache             { return &Cache{"c"} }\nfunc NewApp(db *DB, c *Cache) *App { return &App{db, c} }\n\nfunc setup(dsn string) {\n\tdb := &DB{dsn}\n\t_ = kessoku.Inject[*App]("InitApp",\n\t\tkessoku.Async(kessoku.Value(db)),\n\t\tkessoku.Async(kessoku.Provide(NewCache)),\n\t\tkessoku.Provide(NewApp),\n\t)\n}\n\nfunc main() {\n\tsetup("dsn")\n\tapp := InitApp(context.Background())\n\tif app.db == nil || app.db.dsn != "dsn" {\n\t\tpanic("wrong result")\n\t}\n}\n',
+    'NAME_TAKEN_IMPORT_LIB': 'package server\n\ntype Server struct{ Addr string }\n\nfunc New() *Server { return &Server{Addr: ":80"} }\n',
+    'NAME_TAKEN_IMPORT': 'package main\n\nimport (\n\t"github.com/mazrean/kessoku"\n\t"vscratch/name_taken_import/server"\n)\n\nvar _ = kessoku.Inject[*server.Server]("server", kessoku.Provide(server.New))\n\nfunc main() {}\n',
+    'IMPORT_LOCAL_CONFIG': 'package config\n\ntype Conf struct{ Name string }\ntype Settings struct{ C *Conf }\n\nfunc New(c *Conf) *Settings { return &Settings{C: c} }\nfunc Default() *Conf        { return &Conf{Name: "d"} }\n',
+    'IMPORT_LOCAL_SETS': 'package main\n\nimport (\n\t"github.com/mazrean/kessoku"\n\t"vscratch/import_local_xfile/config"\n)\n\nvar BaseSet = kessoku.Set(\n\tkessoku.Provide(config.Default),\n\tkessoku.Provide(func(cfg *config.Conf) *config.Settings { return config.New(cfg) }),\n)\n',
+    'IMPORT_LOCAL_MAIN': 'package main\n\nimport (\n\t"github.com/mazrean/kessoku"\n\tcfg "vscratch/import_local_xfile/config"\n)\n\ntype App struct{ S *cfg.Settings }\n\nfunc NewApp(s *cfg.Settings) *App { return &App{S: s} }\n\nvar _ = kessoku.Inject[*App]("InitApp", BaseSet, kessoku.Provide(NewApp))\n\nfunc main() {\n\tif InitApp().S.C.Name != "d" {\n\t\tpanic("wrong result")\n\t}\n}\n',
+    'DOT_QUALIFIER_PARAM': 'package main\n\nimport (\n\t"github.com/mazrean/kessoku"\n\t. "vscratch/dot_qualifier_param/config"\n)\n\ntype App struct{ S *Settings }\n\nfunc NewApp(s *Settings) *App { return &App{S: s} }\n\nvar _ = kessoku.Inject[*App]("InitApp",\n\tkessoku.Provide(Default),\n\tkessoku.Provide(func(config *Conf) *Settings { return New(config) }),\n\tkessoku.Provide(NewApp),\n)\n\nfunc main() {\n\tif InitApp().S.C.Name != "d" {\n\t\tpanic("wrong result")\n\t}\n}\n',
+    'DOT_QUALIFIER_LOCAL_LIB': 'package config\n\ntype Config struct{ Port int }\ntype Server struct{ Cfg Config }\n\nfunc Load() Config               { return Config{Port: 8080} }\nfunc NewServer(c Config) *Server { return &Server{c} }\n',
+    'DOT_QUALIFIER_LOCAL': 'package main\n\nimport (\n\t. "vscratch/dot_qualifier_local/config"\n\n\t"github.com/mazrean/kessoku"\n)\n\nvar _ = kessoku.Inject[*Server]("InitServer",\n\tkessoku.Provide(func() *Server {\n\t\tconfig := Load()\n\t\tconfig.Port++\n\t\treturn NewServer(config)\n\t}),\n)\n\nfunc main() {\n\tif InitServer().Cfg.Port != 8081 {\n\t\tpanic("wrong result")\n\t}\n}\n',
+    'SET_MULTI_VALUE': 'package main\n\nimport "github.com/mazrean/kessoku"\n\ntype A struct{}\ntype B struct{ a *A }\ntype App struct{ b *B }\n\nfunc NewA() *A         { return &A{} }\nfunc NewB(a *A) *B     { return &B{a} }\nfunc NewApp(b *B) *App { return &App{b} }\n\nfunc two[T any](x, y T) (T, T) { return x, y }\n\nvar s1, s2 = two(kessoku.Set(kessoku.Provide(NewA)), kessoku.Set(kessoku.Provide(NewB)))\n\nvar _ = kessoku.Inject[*App]("InitApp", s1, s2, kessoku.Provide(NewApp))\n\nfunc main() {}\n',
     'BIND_STRUCT2': 'package main\n\nimport "github.com/mazrean/kessoku"\n\ntype Store interface{ Name() string }\ntype Lag int\ntype Primary struct{ n string }\ntype Replica struct {\n\tLag Lag\n\tn   string\n}\n\nfunc (p *Primary) Name() string { return p.n }\nfunc (r *Replica) Name() string { return r.n }\n\nfunc NewStores() (*Primary, *Replica) { return &Primary{"primary"}, &Replica{Lag: 3, n: "replica"} }\n\ntype App struct {\n\tS Store\n\tL Lag\n\tP *Primary\n}\n\nfunc NewApp(s Store, l Lag, p *Primary) *App { return &App{s, l, p} }\n\nvar _ = kessoku.Inject[*App]("InitApp", kessoku.Provide(NewStores), kessoku.Bind[Store](kessoku.Struct[*Replica]()), kessoku.Provide(NewApp))\n\nfunc main() {\n\tvar f func() *App = InitApp\n\ta := f()\n\tif a.S.Name() != "replica" || a.L != 3 || a.P.Name() != "primary" {\n\t\tpanic("wrong result")\n\t}\n}\n',
     'BIND_STRUCT_NOFIELDS': 'package main\n\nimport "github.com/mazrean/kessoku"\n\ntype Greeter interface{ Greet() string }\ntype impl struct{ s string }\n\nfunc (i *impl) Greet() string { return i.s }\nfunc NewImpl() *impl          { return &impl{"hi"} }\n\ntype App struct{ G Greeter }\n\nfunc NewApp(g Greeter) *App { return &App{g} }\n\nvar _ = kessoku.Inject[*App]("InitApp", kessoku.Provide(NewImpl), kessoku.Bind[Greeter](kessoku.Struct[*impl]()), kessoku.Provide(NewApp))\n\nfunc main() {\n\tvar f func() *App = InitApp\n\tif f().G.Greet() != "hi" {\n\t\tpanic("wrong result")\n\t}\n}\n',
     'LOCAL_SET2': 'package main\n\nimport "github.com/mazrean/kessoku"\n\ntype A struct{}\ntype B struct{ a *A }\ntype App struct{ b *B }\n\nfunc NewA() *A          { return &A{} }\nfunc NewB(a *A) *B      { return &B{a} }\nfunc NewApp(b *B) *App  { return &App{b} }\n\nfunc wiring() {\n\tbase, extra := kessoku.Set(kessoku.Provide(NewA)), kessoku.Set(kessoku.Provide(NewB))\n\t_ = kessoku.Inject[*App]("InitApp", base, extra, kessoku.Provide(NewApp))\n}\n\nfunc main() {\n\tvar f func() *App = InitApp\n\tif f().b.a == nil {\n\t\tpanic("wrong result")\n\t}\n}\n',
@@ -672,6 +683,13 @@ def _stage(seed, tier, key="N-x"):
     pkgs.append(("self_field_dup", {"k.go": R["SELF_FIELD_DUP"]}, ["k.go"], None, dict(kind="an expanded struct with a field of its own pointer type: two suppliers of *Node", expect_refused="multiple providers")))
     pkgs.append(("name_taken_funcbody", {"k.go": R["NAME_TAKEN_FUNCBODY"]}, ["k.go"], None, dict(kind="an Inject inside a function body named like a function of the package", run=True)))
     pkgs.append(("builtin_error_async", {"k.go": R["BUILTIN_ERROR_ASYNC"]}, ["k.go"], None, dict(kind="a package-level type error, goroutines without fallible providers", run=True)))
+    pkgs.append(("local_ref_shadow", {"k.go": R["LOCAL_REF_SHADOW"]}, ["k.go"], None, dict(kind="a provider expression naming a local of the enclosing function that hides a package-level variable", run=True, value_check=True)))
+    pkgs.append(("local_ref_async", {"k.go": R["LOCAL_REF_ASYNC"]}, ["k.go"], None, dict(kind="a provider expression naming a local of the enclosing function, goroutines", run=True, value_check=True)))
+    pkgs.append(("name_taken_import", {"k.go": R["NAME_TAKEN_IMPORT"], "server/s.go": R["NAME_TAKEN_IMPORT_LIB"]}, ["k.go"], None, dict(kind="an injector named like a package the file imports", run=True)))
+    pkgs.append(("import_local_xfile", {"main.go": R["IMPORT_LOCAL_MAIN"], "sets.go": R["IMPORT_LOCAL_SETS"], "config/c.go": R["IMPORT_LOCAL_CONFIG"]}, ["main.go"], None, dict(kind="imports: a Set of another file whose literal has a parameter named like this file's import name", run=True)))
+    pkgs.append(("dot_qualifier_param", {"k.go": R["DOT_QUALIFIER_PARAM"], "config/c.go": R["IMPORT_LOCAL_CONFIG"]}, ["k.go"], None, dict(kind="imports: the qualifier written for a dot import is a parameter of the copied literal", run=True)))
+    pkgs.append(("dot_qualifier_local", {"k.go": R["DOT_QUALIFIER_LOCAL"], "config/c.go": R["DOT_QUALIFIER_LOCAL_LIB"]}, ["k.go"], None, dict(kind="imports: the qualifier written for a dot import is a local of the copied literal", run=True)))
+    pkgs.append(("set_multi_value", {"k.go": R["SET_MULTI_VALUE"]}, ["k.go"], None, dict(kind="Set variables initialised from one multi-value call", crash_check=True)))
     pkgs.append(("local_set", {"k.go": R["LOCAL_SET"]}, ["k.go"], None, dict(kind="a Set held in a := variable", run=True, value_check=True, expect_params={"k_band.go": {"InitApp": []}})))
     pkgs.append(("shared_set_dot", {"k.go": R["SHARED_SET_DOT"], "lib/l.go": R["SHARED_SET_DOT_LIB"]}, ["k.go"], None, dict(kind="imports: a Set shared by two injectors, one provider dot-imported", run=True)))
     pkgs.append(("name_taken_a", {"k.go": R["NAME_TAKEN_A"]}, ["k.go"], None, dict(kind="an injector named like a function of the package", run=True)))
@@ -684,8 +702,8 @@ def _stage(seed, tier, key="N-x"):
     pkgs.append(("known_KF_C02_1", {"k.go": R["CTX_KEPT"]}, ["k.go"], "KF-C02-1", dict(kind="known finding reproducer (a provider keeps the context it is given)", signature="no vet signature: the file compiles", run=True, run_signature="cancelled when the injector returns")))
     pkgs.append(("known_KF_C04_26", {"k.go": R["INTERNAL_K"], "lib/l.go": R["INTERNAL_LIB"], "lib/internal/impl/i.go": R["INTERNAL_IMPL"]}, ["k.go"], "KF-C04-26", dict(kind="known finding reproducer (a value of an internal package's type in the var block)", signature=r"use of internal package .* not allowed")))
     pkgs.append(("known_KF_C04_27", {"app_linux.go": R["GOOS_LINUX"], "app_windows.go": R["GOOS_WINDOWS"], "main.go": R["GOOS_MAIN"]}, ["app_linux.go"], "KF-C04-27", dict(kind="known finding reproducer (a source constrained by its file name)", signature=r"undefined: NewLinux", vet_env={"GOOS": "windows"})))
-    pkgs.append(("xset", XSET, ["k.go"], "KF-C10-1", dict(kind="known finding reproducer (Set of another package)", signature="no vet signature: the file compiles",
-                                                       expect_params={"k_band.go": {"InitB": []}}, known_params={"k_band.go": {"InitB": ["*prov.A"]}})))
+    pkgs.append(("xset", XSET, ["k.go"], None, dict(kind="a Set variable of another package (repaired: refused instead of left out)", expect_refused="cannot read the members of the Set")))
+    pkgs.append(("set_multi_value_refused", {"k.go": R["SET_MULTI_VALUE"]}, ["k.go"], None, dict(kind="Set variables initialised from one multi-value call", expect_refused="cannot read the members of the Set")))
     pkgs.append(("known_KF_C04_24", UNEXPORTED_TYPE, ["k.go"], "KF-C04-24", dict(kind="known finding reproducer", signature=r"(not exported by package lib|cannot refer to unexported|unexported)")))
     pkgs.append(("known_KF_C04_3", CH_PACKAGE, ["k.go"], "KF-C04-3", dict(kind="known finding reproducer", signature=r"ch\.Client is not a type")))
     for kid, (body, sig) in KNOWN.items():
